@@ -104,6 +104,13 @@ pub struct TempPath {
 }
 
 impl TempPath {
+    /// Take over an existing path: it is removed when the value is dropped.
+    pub fn from_path(path: impl Into<PathBuf>) -> TempPath {
+        TempPath {
+            path: path.into(),
+            armed: true,
+        }
+    }
     pub fn close(mut self) -> io::Result<()> {
         self.armed = false;
         mach::fs_unlink(&self.path)
@@ -235,6 +242,9 @@ impl NamedTempFile {
     }
     pub fn into_parts(self) -> (File, TempPath) {
         (self.file, self.path)
+    }
+    pub fn from_parts(file: File, path: TempPath) -> NamedTempFile {
+        NamedTempFile { path, file }
     }
     pub fn reopen(&self) -> io::Result<File> {
         File::options().read(true).write(true).open(&self.path.path)
